@@ -316,6 +316,17 @@ def run(ctx):
     b = bind_args(pb, bcall)
     okb = U(b.get(ps[0])) .endswith('.batch_items') and isinstance(b.get(ps[1]), ast.Name)
     ctx.check(okb, 'C08.R6', 'KmipEngine.process_request|batch-arguments', m.site(bcall, pr), 'the request\'s own batch items and error option are processed', 'the batch call does not receive request.batch_items / the error continuation option')
+    # ---------------- R7 results of executed items are withheld only for the size limit of that very request
+    ctx.rule('C08.R7', 'the session replaces the engine\'s batch response by a response-too-large error only when the encoding exceeds the maximum size of this request (the value the request header carried, else the session default, which is stored once in __init__): otherwise items that were executed and committed are never reported (lifted from C12.R5)')
+    from ..report import Ctx as _Ctx
+    from . import c12 as _c12
+    sub = _Ctx('C12', 'quick', ctx.src, 0)
+    _c12.run(sub)
+    lifted = [f for f in sub.findings if f.rule == 'C12.R5']
+    for f in lifted:
+        ctx.fail('C08.R7', f.key, f.site, f.message + ' - a batch that was executed is then answered with an anonymous too-large error')
+    if not lifted:
+        ctx.ok('C08.R7', 'kmip/services/server/session.py KmipSession._handle_message_loop', 'size test after encode, replacement only under the per-request maximum')
     ctx.not_decided += ['equality of store snapshots before/after a failed item for implicit exceptions raised by third-party code after a mutation',
                         'batch order option semantics']
     ctx.assumptions += ['a fresh object that was never add()ed to the session leaves no trace', 'the SQLAlchemy session flushes pending changes at the next commit (no rollback in _process_batch)']
